@@ -78,10 +78,11 @@ class PtrAddr:
 
 
 class FnPtr:
-    __slots__ = ("inst",)
+    __slots__ = ("inst", "closure")
 
-    def __init__(self, inst):
+    def __init__(self, inst, closure=False):
         self.inst = inst
+        self.closure = closure   # reified non-capturing closure: calls get a unit environment prepended
 
     def __repr__(self):
         return "FnPtr(%s)" % self.inst
